@@ -219,9 +219,7 @@ def create_for_folder_subcommand(
 
     # we collect all paths we expect to find first and remove every path that we actually found while
     # traversing the file system, so this set will at the end contain the file paths not found in the file system
-    not_found_paths = existing_history.set_of_file_paths()
-    renamed_files = existing_history.renamed_path_with_previous_path()
-    not_found_paths = {p if renamed_files.get(p, None) is None else renamed_files[p] for p in not_found_paths}
+    not_found_paths = existing_history.set_of_expected_file_paths()
     new_paths = set()
     missing_asc_mhl_folder = set()
 
@@ -619,9 +617,7 @@ def verify_entire_folder(
 
     # we collect all paths we expect to find first and remove every path that we actually found while
     # traversing the file system, so this set will at the end contain the file paths not found in the file system
-    not_found_paths = existing_history.set_of_file_paths()
-    renamed_files = existing_history.renamed_path_with_previous_path()
-    not_found_paths = {p if renamed_files.get(p, None) is None else renamed_files[p] for p in not_found_paths}
+    not_found_paths = existing_history.set_of_expected_file_paths()
 
     num_failed_verifications = 0
     num_new_files = 0
@@ -1050,9 +1046,7 @@ def diff_entire_folder_against_full_history_subcommand(root_path, verbose, ignor
 
     # we collect all paths we expect to find first and remove every path that we actually found while
     # traversing the file system, so this set will at the end contain the file paths not found in the file system
-    not_found_paths = existing_history.set_of_file_paths()
-    renamed_files = existing_history.renamed_path_with_previous_path()
-    not_found_paths = {p if renamed_files.get(p, None) is None else renamed_files[p] for p in not_found_paths}
+    not_found_paths = existing_history.set_of_expected_file_paths()
 
     num_failed_verifications = 0
     num_new_files = 0
